@@ -794,6 +794,8 @@ Move Position::parse_san(const std::string& str)
     for (Move* it = begin; it != end; ++it)
     {
         Move move = *it;
+        // castling moves encode no squares (they decode as a1a1)
+        if (castling(move) != NO_CASTLING) continue;
         if (make_piece_kind(piece_at(from(move))) == moved_piece &&
                 (!from_file || file(from(move)) == from_file.value()) &&
                 (!from_rank || rank(from(move)) == from_rank.value()) &&
